@@ -62,7 +62,7 @@ def cases(tier, seed):
         e2e.vary_rare_parameters(rng, cfg)
         if rng.random() < 0.1:
             cfg["max_steplength"] = float(gen.pick(rng, [0.1, 1.0, 5.0]))
-        if i % 9 == 7:
+        if i % 4 == 3:
             cfg["is_check_factorization"] = True  # the debugging switch: it may end a run with an AssertionError of its own, never change a run
         if cfg["jac"] == "callable" and i % 4 == 1:
             cfg["reuse_grad_buffer"] = True  # the user's gradient fills and returns one preallocated array; results are audited at the end
